@@ -405,6 +405,8 @@ def scoped_flags(ctx, R):
 
 def h2(ctx, R):
     prog = ctx.program
+    from .shared_default import shared_defaults
+    shared_defaults(ctx, {"parser", "commands", "factory", "tools"})
     # ---- H2 ----------------------------------------------------------------------
     ctx.rule("H2", "reset coverage: every Parser attribute written by a token handler is re-initialised by the reset; reset dominates the loop")
     running_ = {id(g.node) for g in R.reachable()}
